@@ -226,6 +226,9 @@ def run(ctx):
 
     from rules.c12 import heap_exit_rule
     heap_exit_rule(ctx, prog, 'C07-R6')
+    # a reader pinned before a compaction must still find the delete vectors it lists (after seed C07-e = C08-c)
+    from rules.c08 import pools_shrink_only_in_vacuum
+    pools_shrink_only_in_vacuum(ctx, prog, 'C07-R7')
 
 
 def __places(st):
